@@ -1331,6 +1331,34 @@ def _return_locals(fn):
     return rl
 
 
+def carriers(fn, block, local):
+    """Forward value flow of the value stored in `local` at `block`: the (block, local) pairs it is moved / copied /
+    wrapped (as operand of an aggregate) into, transitively.  Used to find *where* an eagerly built value is actually
+    chosen (e.g. the `None` arm an `unwrap_or(default)` expands to) rather than where it is constructed."""
+    seen = {local}
+    out = [(block, local)]
+    changed = True
+    while changed:
+        changed = False
+        for b in sorted(fn.live):
+            for st in fn.stmts(b):
+                if st["k"] != "assign" or st["p"]["p"]:
+                    continue
+                r = st["r"]
+                ops = []
+                if r["k"] in ("use", "cast"):
+                    ops = [r["o"]]
+                elif r["k"] == "agg":
+                    ops = r["ops"]
+                for o in ops:
+                    q = op_place(o)
+                    if q is not None and not q["p"] and q["l"] in seen and st["p"]["l"] not in seen:
+                        seen.add(st["p"]["l"])
+                        out.append((b, st["p"]["l"]))
+                        changed = True
+    return out
+
+
 def assigns_to_return(fn, blocks):
     """The definitions of the returned value located inside `blocks`: statements `_r = <rvalue>` and calls with destination
     `_r`, for `_r` the return place or a temporary that is moved whole into it; pure forwarding moves between such
